@@ -82,7 +82,7 @@ func checkC01(c *Ctx) error {
 			for _, prod := range producersOf(ic, en) {
 				v, m := q(en.X, fmt.Sprintf("(not (and %s (< %s %s)))", prod.X, prod.C, en.C))
 				if v == smt.Sat {
-					ic.report(map[string]string{"kind": "entered-before-producer-returned", "consumer-thread": threadKind(en.Thread), "producer-thread": threadKind(prod.Thread)}, m, "order-"+en.Ev.Prov)
+					ic.report(map[string]string{"kind": "entered-before-producer-returned", "consumer-thread": threadKind(en.Thread), "producer-thread": threadKind(prod.Thread), "_consumer": en.Ev.Prov, "_producer": prod.Ev.Prov}, m, "order-"+en.Ev.Prov)
 				}
 			}
 		}
